@@ -23,7 +23,7 @@ for patch in "$@"; do
   if ! (cd "$SCR/sim" && cargo build --offline --profile simdev >"$SCR/build.log" 2>&1); then echo -e "$name\t-\terror\tbuild" >> "$out"; continue; fi
   plist="$props"; [ "${TARGET_ONLY:-0}" = 1 ] && plist=$(echo "$patch" | grep -oE "C[0-9]{2}" | head -1)
   for prop in $plist; do
-    "$SCR/sim/target/simdev/dtr-sim" check $prop --tier ${TIER:-quick} ${RUNS:+--runs $RUNS} --replay-dir "$SCR/rp" --known /dev/null >"$SCR/run.log" 2>&1
+    DTR_SIM_HANG_CPU_SECS=${HANG_SECS:-6} "$SCR/sim/target/simdev/dtr-sim" check $prop --tier ${TIER:-quick} ${RUNS:+--runs $RUNS} --no-shrink --replay-dir "$SCR/rp" --known /dev/null >"$SCR/run.log" 2>&1
     code=$?
     oracle=$(sed -n 's/^  oracle \([A-Za-z0-9_.]*\):.*/\1/p' "$SCR/run.log" | head -1)
     case $code in
